@@ -3,7 +3,7 @@
    gmrf_neumann_ok check exactly the hypotheses below on the implementation's read-off map T).
    A draw is s = mu + T e, e standard normal, so its mean is mu and its covariance T T^T. *)
 From mathcomp Require Import all_ssreflect all_algebra.
-From CVmc Require Import C05_Cov.
+From CVmc Require Import C05_Cov C05_Link.
 Import GRing.Theory.
 Local Open Scope ring_scope.
 
@@ -42,3 +42,23 @@ Theorem C05_gmrf_neumann_cov_partial : forall (F : fieldType) (n m : nat) (Pe : 
   r * r = prec -> (r *: Pe) *m T = D^T -> (prec *: Pe) *m (T *m T^T) *m Pe^T = D^T *m D.
 Proof. exact gmrf_neumann_cov. Qed.
 Print Assumptions C05_gmrf_neumann_cov_partial.
+
+(* ---------------- the same theorems for matrices as lists of rows (deepening round) ----------------
+   ldot / lcol / ltr / lmm / lid (mc/C05_Link.v) are the recursions of the executable model's qdot / qcol / qtr / qmm / qid
+   over an arbitrary field; wf m n = "m rows of length n".  gauss_ok / gmrf_neumann_ok check the hypotheses on the
+   implementation's read-off map (over Q, within 1e-9). *)
+Theorem C05_list_gaussian_cov : forall (F : fieldType) (n : nat) (S T : lmat F),
+  wf n n S -> wf n n T -> lmm n S T = lid F n ->
+  lmm n (lmm n (ltr n S) S) (lmm n T (ltr n T)) = lid F n.
+Proof. exact list_gaussian_cov. Qed.
+Print Assumptions C05_list_gaussian_cov.
+
+Theorem C05_list_sandwich_cov : forall (F : fieldType) (n m : nat) (A T B : lmat F),
+  wf n n A -> wf n m T -> wf n m B -> lmm m A T = B ->
+  lmm n (lmm n A (lmm n T (ltr m T))) (ltr n A) = lmm n B (ltr m B).
+Proof. exact list_sandwich_cov. Qed.
+Print Assumptions C05_list_sandwich_cov.
+
+Example C05_list_example : forall (F : fieldType) (n : nat),
+  wf n n (lid F n) /\ lmm n (lid F n) (lid F n) = lid F n.
+Proof. move=> F n; split; [exact: wf_lid | exact: lid_idem]. Qed.
